@@ -457,4 +457,182 @@ theorem fatal_silent {q : Parser} {e : PErr} (h : C03S.ErrState q e) {t : List O
       C03S.ErrState (applyOps q t) e :=
   ⟨(err_quiet h hl).1, (err_quiet h hl).2.1, (err_quiet h hl).2.2, C03S.err_sticky_trace h hl⟩
 
+
+/-! ## 5. Concrete instances (non-vacuity) -/
+
+section Examples
+
+/-! ### A. A hostile wire: earlier-stream record, foreign-id Stdin, unknown type, foreign
+BeginRequest, GetValues, then a header with version 2 and trailing bytes -/
+
+/-- A Filter request, id 1; `Data` is the active stream (as after `set_stream(Data)`). -/
+def hReq : Request := { id := 1, role := 3, flags := 0, env := [] }
+def hP : Parser := { Parser.fromParser 128 hReq [] 10 with stream := some 8 }
+def hE : Cfg := ⟨1, 3, 8, 10⟩
+
+theorem hStart : Start hE hP :=
+  ⟨⟨by decide, by decide, by decide, trivial, Or.inr ⟨8, rfl, by decide⟩, by decide⟩,
+   ⟨rfl, rfl, rfl, rfl, by decide⟩, rfl, rfl⟩
+
+def hRecs : List Rec :=
+  [{ rtype := 8, id := 1, content := [65, 66], pad := [0, 0] },          -- Data "AB"
+   { rtype := 5, id := 1, content := [88, 89, 90], pad := [] },          -- own-id Stdin: EARLIER stream
+   { rtype := 5, id := 2, content := [81], pad := [0] },                 -- foreign-id Stdin
+   { rtype := 200, id := 7, content := [1, 2, 3], pad := [] },           -- unknown record type 200
+   { rtype := 1, id := 9, content := [0, 1, 0, 0, 0, 0, 0, 0], pad := [] },  -- foreign BeginRequest
+   C02.exNoise,                                                          -- management GetValues
+   { rtype := 8, id := 1, content := [67], pad := [0, 0, 0] }]           -- Data "C"
+/-- A header with version byte 2, and two trailing bytes. -/
+def hTail : Bytes := [2, 8, 0, 1, 0, 0, 0, 0, 9, 9]
+def hWire : Bytes := serAll hRecs ++ hTail
+
+example : hWire.length = 114 := by decide +kernel
+example : (∀ r ∈ hRecs, r.WF) ∧ nextRec hTail = none := by
+  refine ⟨?_, by decide +kernel⟩
+  intro r hr
+  simp only [hRecs, List.mem_cons, List.not_mem_nil, or_false] at hr
+  rcases hr with rfl | rfl | rfl | rfl | rfl | rfl | rfl <;> (unfold Rec.WF; decide)
+
+/-- The record-level semantics of these records: the classes … -/
+example : hRecs.map (rclass hE) = [.data, .noise, .noise, .noise, .noise, .noise, .data] := by
+  decide +kernel
+
+/-- … content "ABC"; replies: `UnknownType(200)` to id 7, `EndRequest(CantMpxConn)` to id 9, a
+32-byte `GetValuesResult`; no record stops the parser; the tail is fatal. -/
+example : (refRun hE hRecs).content = [65, 66, 67] ∧ (refRun hE hRecs).stop = .ranOut ∧
+    (refRun hE hRecs).out =
+      [1, 11, 0, 7, 0, 8, 0, 0, 200, 0, 0, 0, 0, 0, 0, 0] ++
+      [1, 3, 0, 9, 0, 8, 0, 0, 0, 0, 0, 0, 1, 0, 0, 0] ++ owed (some 1) 10 C02.exNoise ∧
+    (owed (some 1) 10 C02.exNoise).length = 32 ∧
+    refTail hE hTail = ⟨[], [], .err (.unknownVersion 2), hTail⟩ := by decide +kernel
+
+example : refWire hE hWire =
+    ⟨[65, 66, 67], (refRun hE hRecs).out, .err (.unknownVersion 2), hTail⟩ := by decide +kernel
+
+/-- Schedule 1: everything at once into the internal buffer. -/
+def hOps1 : List Op := [.parse hWire none]
+/-- Schedule 2: eight pieces, tiny `dest` buffers, the internal buffer, compaction, flushing. -/
+def hOps2 : List Op :=
+  [.parse (hWire.take 5) (some 1), .parse ((hWire.drop 5).take 8) (some 1), .parse [] (some 1),
+   .compress, .parse ((hWire.drop 13).take 30) (some 4), .consumeOutput 7,
+   .parse ((hWire.drop 43).take 30) none, .consumeStream 1, .compress,
+   .parse ((hWire.drop 73).take 33) (some 3), .consumeOutput 100, .parse (hWire.drop 106) (some 3),
+   .parse [] (some 3)]
+
+theorem hLegal1 : LegalAll hP hOps1 := by decide +kernel
+theorem hLegal2 : LegalAll hP hOps2 := by decide +kernel
+theorem hNoSet1 : NoSet hOps1 := fun s h => by simp [hOps1] at h
+theorem hNoSet2 : NoSet hOps2 := fun s h => by simp [hOps2] at h
+theorem hFed : fedBytes hOps1 = fedBytes hOps2 := by decide +kernel
+theorem hDrained1 : Drained (applyOps hP hOps1) := by decide +kernel
+theorem hDrained2 : Drained (applyOps hP hOps2) := by decide +kernel
+
+/-- The theorem on the instance … -/
+example : outcome hP hOps1 = outcome hP hOps2 :=
+  (str_chunk_invariance hStart hLegal1 hLegal2 hNoSet1 hNoSet2 hFed hDrained1 hDrained2).1
+
+example : outcome hP hOps1 = refOutcome hE hWire := by
+  have := outcome_determined hStart hOps1 hLegal1 hNoSet1 hDrained1
+  rwa [show hP.raw ++ fedBytes hOps1 = hWire by decide +kernel] at this
+
+/-- … and what actually happens, computed: the same replies, `Err(UnknownVersion(2))` from the
+next call, the offending header (and what follows) unread.  Schedule 1 — whose only call returned
+`Err` — REPORTED no stream bytes (they are in the internal buffer: `availOps`), schedule 2
+reported all three. -/
+example : outcome hP hOps1 = ⟨(refRun hE hRecs).out, .err (.unknownVersion 2), hTail⟩ ∧
+    outcome hP hOps2 = ⟨(refRun hE hRecs).out, .err (.unknownVersion 2), hTail⟩ ∧
+    availOps hP hOps1 = [65, 66, 67] ∧ availOps hP hOps2 = [65, 66, 67] ∧
+    deliveredOps hP hOps1 = [] ∧ deliveredOps hP hOps2 = [65, 66, 67] := by decide +kernel
+
+/-- No call into a `dest` failed in either schedule, so the available bytes agree by the theorem. -/
+example : availOps hP hOps1 = availOps hP hOps2 :=
+  (str_chunk_invariance hStart hLegal1 hLegal2 hNoSet1 hNoSet2 hFed hDrained1 hDrained2).2.1
+    (by decide +kernel) (by
+      refine ⟨trivial, ?_⟩
+      decide +kernel)
+
+/-! ### B. `AbortRequest`; the witness against the strong statement -/
+
+/-- A Responder request, id 1, fresh parser (`Stdin` active). -/
+def aP : Parser := Parser.fromParser 64 C02.exReq [] 10
+def aE : Cfg := ⟨1, 1, 5, 10⟩
+theorem aStart : Start aE aP := start_fresh 64 C02.exReq [] 10 (by decide) (by decide) (Or.inl rfl)
+
+def aStdin : Rec := { rtype := 5, id := 1, content := [65, 66, 67], pad := [0] }
+def aAbort : Rec := { rtype := 2, id := 1, content := [], pad := [] }
+def aWire : Bytes := aStdin.ser ++ aAbort.ser ++ [7, 7]
+
+example : refRun aE [aStdin, aAbort] = ⟨[65, 66, 67], [], .abort 1⟩ := by decide +kernel
+example : refWire aE aWire = ⟨[65, 66, 67], [], .err .abortRequest, aAbort.ser ++ [7, 7]⟩ := by
+  decide +kernel
+
+/-- One call for everything, into a 10-byte `dest` … -/
+def aOps1 : List Op := [.parse aWire (some 10)]
+/-- … versus the `Stdin` record first. -/
+def aOps2 : List Op := [.parse aStdin.ser (some 10), .parse (aAbort.ser ++ [7, 7]) (some 10)]
+
+theorem aLegal1 : LegalAll aP aOps1 := by decide +kernel
+theorem aLegal2 : LegalAll aP aOps2 := by decide +kernel
+theorem aNoSet1 : NoSet aOps1 := fun s h => by simp [aOps1] at h
+theorem aNoSet2 : NoSet aOps2 := fun s h => by simp [aOps2] at h
+theorem aFed : fedBytes aOps1 = fedBytes aOps2 := by decide +kernel
+theorem aDrained1 : Drained (applyOps aP aOps1) := by decide +kernel
+theorem aDrained2 : Drained (applyOps aP aOps2) := by decide +kernel
+
+/-- Error, replies and unread remainder agree (by the theorem) … -/
+example : outcome aP aOps1 = outcome aP aOps2 :=
+  (str_chunk_invariance aStart aLegal1 aLegal2 aNoSet1 aNoSet2 aFed aDrained1 aDrained2).1
+example : outcome aP aOps1 = ⟨[], .err .abortRequest, aAbort.ser ++ [7, 7]⟩ := by decide +kernel
+
+/-- … `prefix_on_error` on the instance … -/
+example : deliveredOps aP [.parse aStdin.ser (some 10)] <+: [65, 66, 67] := by
+  have h := prefix_on_error aStart [.parse aStdin.ser (some 10)] (aAbort.ser ++ [7, 7]) (some 10)
+    aLegal2 (fun s h => by simp at h) (q' := (applyOps aP aOps2)) (e := .abortRequest)
+    (by decide +kernel) []
+  rwa [show (refWire aE (aP.raw ++ fedBytes ([.parse aStdin.ser (some 10)] ++
+      [.parse (aAbort.ser ++ [7, 7]) (some 10)]) ++ [])).content = [65, 66, 67] by decide +kernel] at h
+
+/-- … but the stream bytes REPORTED differ: the call that met the `AbortRequest` had already
+written "ABC" into `dest`, and its `Status` is lost with the `Err`. -/
+example : deliveredOps aP aOps1 = [] ∧ deliveredOps aP aOps2 = [65, 66, 67] ∧
+    availOps aP aOps1 = [] ∧ availOps aP aOps2 = [65, 66, 67] := by decide +kernel
+
+/-- **The strong statement is false**: with an `Err` returned by a call into `dest`, the reported
+(and the available) stream bytes depend on the chunking. -/
+theorem str_chunk_invariance_full_false : ¬ str_chunk_invariance_full := by
+  intro h
+  have := h aE aP aOps1 aOps2 aStart aLegal1 aLegal2 aNoSet1 aNoSet2 aFed aDrained1 aDrained2
+  exact absurd this.2.1 (by decide +kernel)
+
+/-- With the internal buffer instead of `dest` nothing is lost: the bytes are in `stream_buffer()`. -/
+example : availOps aP [.parse aWire none] = [65, 66, 67] ∧
+    (applyOps aP [.parse aWire none]).parsed = [65, 66, 67] := by decide +kernel
+
+/-! ### C. A truncated tail -/
+
+/-- `Stdin("AB")`, then a `Stdin` header announcing 5 bytes of which 3 are there. -/
+def tWire : Bytes := ({ rtype := 5, id := 1, content := [65, 66], pad := [] } : Rec).ser ++
+  [1, 5, 0, 1, 0, 5, 3, 0, 67, 68, 69]
+
+example : decomp tWire =
+    ([{ rtype := 5, id := 1, content := [65, 66], pad := [] }], [1, 5, 0, 1, 0, 5, 3, 0, 67, 68, 69]) := by
+  decide +kernel
+example : refWire aE tWire = ⟨[65, 66, 67, 68, 69], [], .more, []⟩ := by decide +kernel
+
+def tOps1 : List Op := [.parse tWire none]
+def tOps2 : List Op := [.parse (tWire.take 9) (some 1), .parse (tWire.drop 9) (some 1),
+  .parse [] (some 2), .parse [] none]
+
+example : outcome aP tOps1 = outcome aP tOps2 ∧ deliveredOps aP tOps1 = deliveredOps aP tOps2 := by
+  have h := str_chunk_invariance aStart (ops₁ := tOps1) (ops₂ := tOps2) (by decide +kernel)
+    (by decide +kernel) (fun s h => by simp [tOps1] at h) (fun s h => by simp [tOps2] at h)
+    (by decide +kernel) (by decide +kernel) (by decide +kernel)
+  exact ⟨h.1, (h.2.2.1 (by decide +kernel)).1⟩
+example : outcome aP tOps1 =
+    ⟨[], .ok { stream := 0, streamEnd := false, output := 0, delivered := [] }, []⟩ ∧
+    deliveredOps aP tOps2 = [65, 66, 67, 68, 69] ∧
+    (applyOps aP tOps2).pay = 2 ∧ (applyOps aP tOps2).pad = 3 := by decide +kernel
+
+end Examples
+
 end Fcgi.C03SI
